@@ -1,5 +1,7 @@
 package main
 
+import "strings"
+
 type ruleRef struct {
 	Rule   string
 	Filter func(*Obligation) bool
@@ -18,13 +20,15 @@ type propSpec struct {
 // share one function; it runs once per analysis).
 var ruleGroups = map[string]func(*Ctx){
 	"I1": rulesIndex, "I2": rulesIndex, "I3": rulesIndex, "I5": rulesIndex,
+	"P1": rulesPersist, "E1": rulesPersist, "E2": rulesPersist, "I4": rulesPersist, "L1": rulesPersist,
 	"J1": rulesSize, "N1": rulesSize, "N2": rulesSize, "N3": rulesSize,
 	"A1": rulesAccess, "A2": rulesAccess, "A3": rulesAccess, "A4": rulesAccess, "T1": rulesAccess, "N4": rulesAccess,
 	"Q1": rulesRepl, "Q2": rulesRepl, "G2": rulesRepl, "L2": rulesRepl,
 	"E3": rulesBus, "E4": rulesBus, "E5": rulesBus, "B1": rulesBus, "B2": rulesBus, "B3": rulesBus, "P2": rulesBus, "P3": rulesBus,
 	"R1": rulesStatus, "R2": rulesStatus,
 	"G1": rulesLife, "G3": rulesLife, "G4": rulesLife, "G5": rulesLife, "G6": rulesLife,
-	"P1": rulesPersist, "E1": rulesPersist, "E2": rulesPersist, "I4": rulesPersist, "L1": rulesPersist,
+	"X1": rulesTransport, "X2": rulesTransport, "X3": rulesTransport, "W1": rulesTransport,
+	"M1": rulesAddr, "M2": rulesAddr, "M3": rulesAddr, "D2": rulesAddr,
 }
 
 func rr(ids ...string) []ruleRef {
@@ -35,8 +39,112 @@ func rr(ids ...string) []ruleRef {
 	return out
 }
 
+// only keeps obligations whose construct mentions one of the fragments (anchor-lost reports are always kept).
+func only(rule string, frags ...string) ruleRef {
+	return ruleRef{Rule: rule, Filter: func(o *Obligation) bool {
+		if strings.HasPrefix(o.Construct, "anchor-lost:") {
+			return true
+		}
+		for _, f := range frags {
+			if strings.Contains(o.Construct, f) {
+				return true
+			}
+		}
+		return false
+	}}
+}
+
+func except(rule string, frags ...string) ruleRef {
+	return ruleRef{Rule: rule, Filter: func(o *Obligation) bool {
+		for _, f := range frags {
+			if strings.Contains(o.Construct, f) {
+				return false
+			}
+		}
+		return true
+	}}
+}
+
+func cat(rs ...[]ruleRef) []ruleRef {
+	var out []ruleRef
+	for _, r := range rs {
+		out = append(out, r...)
+	}
+	return out
+}
+
+var commonAssumptions = []string{
+	"go/packages + go/types + go/ssa (golang.org/x/tools v0.29.0) represent the program faithfully for the loaded build configuration (linux/amd64; thorough also linux/386)",
+	"the pinned dependencies (go-ipfs-log v1.10.3-0.20240719141234-29e2d26e2aeb, go-libp2p eventbus, go-datastore) behave as their source says; facts about them that a rule relies on are re-derived from that source on each run and listed under dependency_facts",
+	"lock identity is (owning struct type, field); value flow is followed within a function, into closures and one or two levels into repo callees; interface calls are resolved by class hierarchy (quick) or VTA (thorough)",
+	"a discharged obligation establishes a NECESSARY structural condition of the property on every path/site/implementation of the current source, not the behavioural property itself",
+}
+
 var propSpecs = map[string]*propSpec{
-	"C05": {ID: "C05", Rules: rr("P1"),
-		Explanation: "P1: on every path of every write path, Append is followed by a cache Put whose error is tested before a successful return; on the replicator-fed merge path Join is followed by a Put of the merged heads before EventReplicated.",
-		NotDecided:  "durability of leveldb/IPFS writes; the state recovered from each crash prefix."},
+	"C01": {ID: "C01", Rules: rr("I1", "I2", "I3", "I4"), Controls: []string{"I4", "I2"},
+		Explanation: "Repo-side necessary conditions of order-independence: every index implementation computes its view from the log's total order only (I1: Values(), never GetEntries/Heads/Iterator/the incremental argument), the last-writer-wins scan is coherent (I2: scan direction vs first-seen guard; tested, marked and written key identical by normal form), store and index agree on the opcode table (I3), and every route that changes the log (write path, three merge sites) refreshes the view before reporting success (I4).",
+		NotDecided:  "that Join is set union and Values() a deterministic total order (CRDT inside go-ipfs-log); actual delivery orders."},
+	"C02": {ID: "C02", Rules: cat(rr("W1", "L2", "P3"), []ruleRef{only("P2", "_localHeads", "Get(", "anchor")}), Controls: []string{"P3"},
+		Explanation: "Wiring needed for eventual delivery: a peer joining the topic reaches the head exchange, which sends the cached heads under the store's own address on its success path (W1); the key the write path persists is the one the exchange and the load path read (P2); fetched entries' next links are queued (L2); and the persisted local head covers every acknowledged write because Append and the persisting Put share a critical section (P3).",
+		NotDecided:  "liveness itself: fault sequences, retries, pubsub behaviour, fetchability of blocks."},
+	"C03": {ID: "C03", Rules: rr("A1", "A2", "A3", "A4"), Controls: []string{"A1"},
+		Explanation: "For all access-controller implementations: every accepting path of CanAppend passes a successful write-list membership comparison and an identity verification whose result is used (A1); that verification is not a constant accept (A2, derived from the dependency); the signing key is bound to the named identity (A3); every log is constructed with the store's controller and database id, is mutated only through Append/Join, and the controller and store type come from the manifest at the address root (A4).",
+		NotDecided:  "cryptographic soundness of signatures; that the dependency's Join/Append call CanAppend and Verify for every new entry (read once, DF6)."},
+	"C04": {ID: "C04", Rules: rr("T1", "A4"), Controls: []string{"T1"},
+		Explanation: "Interprocedural field-based taint from every read of a decoded MessageExchangeHeads.Heads to log constructors, entry maps and Join: no entry object received from the network reaches a log except through its content address (T1); logs are only built with the store's access controller and id and only mutated through Append/Join (A4).",
+		NotDecided:  "the dependency's signature check and log-id filter inside Join; hash collision resistance."},
+	"C05": {ID: "C05", Rules: cat(rr("P1"), []ruleRef{except("P2", "snapshot", "queue")}), Controls: []string{"P1"},
+		Explanation: "Ordering of persistence effects on every path: Append → cache Put (error tested, failing branch leaves) → successful return; Join → Put of merged heads (error tested) → EventReplicated (P1); the keys written by those paths and the manifest marker are read back under the same names by the load path, the exchange and the local-presence test, and both head sets read by the load path feed the fetch (P2).",
+		NotDecided:  "durability of leveldb/IPFS writes; the state recovered from each crash prefix (needs CRDT semantics)."},
+	"C06": {ID: "C06", Rules: []ruleRef{only("I1", "kvstore"), only("I2", "kvstore"), only("I3", "kvstore"), {Rule: "I4"}}, Controls: []string{"I2"},
+		Explanation: "Key-value index: view computed from Values() only (I1); descending scan with a first-seen guard whose tested, marked and written key are the same expression, PUT stores and DEL deletes (I2, I3); every log change refreshes the view (I4).",
+		NotDecided:  "that the total order extends happens-before (dependency clocks)."},
+	"C07": {ID: "C07", Rules: []ruleRef{only("I1", "documentstore"), only("I2", "documentstore"), only("I3", "documentstore"), {Rule: "I4"}, {Rule: "D2"}}, Controls: []string{"I2"},
+		Explanation: "Document index: as C06 for PUT, DEL and every member of PUTALL (I1–I3), view refreshed on every change (I4); Delete reaches the append only through a presence test whose absent branch leaves with an error (D2).",
+		NotDecided:  "Get's matching options and Query (string semantics, caller predicates)."},
+	"C08": {ID: "C08", Rules: []ruleRef{only("I1", "eventlogstore", "basestore"), {Rule: "I5"}},
+		Explanation: "Event log listing is the log's total order (I1 for the event and base index); the slice the query reverses in place is freshly built by the installed index on every call (I5).",
+		NotDecided:  "append-only/stability (dependency); exact windows (integer arithmetic over positions and amounts: a solver/symbolic problem, another technique family)."},
+	"C09": {ID: "C09", Rules: rr("B1", "B2"), Controls: []string{"B1"},
+		Explanation: "Every subscription to store-scoped event types on a bus that may be the instance-wide one either filters by the event's database address before any effect, or is made on a bus private to the store (B1); both receive paths route a heads message by the address it names before Sync (B2).",
+		NotDecided:  "interference through the shared IPFS node or the pubsub router."},
+	"C10": {ID: "C10", Rules: rr("L1", "Q1", "I4"), Controls: []string{"L1"},
+		Explanation: "A failing Join stays inside the loop over fetched logs (L1); the task table's terminal state either does not block re-queuing or is collected at load-end regardless of the buffer (Q1); the view is refreshed after partial batches (I4).",
+		NotDecided:  "which entries the dependency rejects."},
+	"C11": {ID: "C11", Rules: rr("Q1", "Q2", "G2"),
+		Explanation: "Task states are not absorbing while blocking (Q1); a worker whose slot wait fails removes a queued item and its task entry (Q2); goroutines draining a fetch-progress channel have no exit on ctx.Done() while the fetcher can still send (G2, with DF4 derived from the dependency).",
+		NotDecided:  "behaviour of IPFS fetches under cancellation."},
+	"C12": {ID: "C12", Rules: []ruleRef{{Rule: "N2"}, {Rule: "N4"}, only("E3", "pubsub", "PayloadEmitter"), {Rule: "T1"}, only("N1", "directchannel")}, Controls: []string{"N4", "N2", "T1"},
+		Explanation: "Allocation sizes decoded from a stream are bounded on both sides before use (N2, N1 on the frame-length conversion); every pointer decoded from a message or fetched entry (heads elements, GetIdentity() results, announced clocks) is nil-tested as a pointer before dereference, including through interface boxing (N4); the payload emitter's value type matches (E3); received entries cannot alter a log except by content address (T1).",
+		NotDecided:  "panics inside dependencies (JSON/CBOR decoders, libp2p)."},
+	"C13": {ID: "C13", Rules: []ruleRef{only("N1", "basestore"), {Rule: "N3"}, only("X3", "basestore"), only("P2", "snapshot", "queue")}, Controls: []string{"N3"},
+		Explanation: "Both 16-bit length prefixes of the snapshot writer are guarded by a range test (N1); make-then-fill loops allocate with the length of the collection they range over (N3: GetQueue); writer and loader use the same prefix width and byte order (X3); the snapshot and queue keys are written and read under the same names (P2).",
+		NotDecided:  "round-trip equality of the decoded log."},
+	"C14": {ID: "C14", Rules: []ruleRef{{Rule: "M1"}, {Rule: "M2"}, {Rule: "M3"}, only("A4", "baseorbitdb")},
+		Explanation: "No clock, randomness, process identity or map-iteration order flows into what is written on the address-determination cone (M1); the address prefix constant agrees between printing and parsing (M2); the local-presence test dominates the marker write in Create and store creation in Open, and its outcome can refuse (M3); controller and store type come from the manifest (A4 iii).",
+		NotDecided:  "injectivity and equality of content addresses; string round trip."},
+	"C15": {ID: "C15", Rules: rr("J1"), Controls: []string{"J1"},
+		Explanation: "At every merge site the size handed to Join is the constant -1 or is, on every path, positive and bounded by the receiving log's length (J1); DF1 (Join slices values[len-size:] unguarded) is re-derived from the dependency.",
+		NotDecided:  "which entries survive trimming (that they are the most recent)."},
+	"C16": {ID: "C16", Rules: []ruleRef{{Rule: "E1"}, {Rule: "E2"}, except("E3", "accesscontroller"), {Rule: "E4"}, {Rule: "E5"}}, Controls: []string{"E1"},
+		Explanation: "View refresh and head persistence dominate EventWrite/EventReplicated (E1); every acknowledged write emits exactly one EventWrite carrying the appended entry (E2); each emitter is only given values of the type it was created for (E3); the legacy emitter is on the store's bus on every initialiser path (E4); sends on a legacy subscriber's delivery channel are in one goroutine or all under the queue lock (E5).",
+		NotDecided:  "the bus's own FIFO/back-pressure semantics (dependency)."},
+	"C17": {ID: "C17", Rules: rr("P3"), Controls: []string{"P3"},
+		Explanation: "The value persisted as local head is produced (Append) and written (Put) inside one exclusive critical section that is not released in between (P3).",
+		NotDecided:  "distinctness of appended entries (the dependency's append lock)."},
+	"C18": {ID: "C18", Rules: rr("G1", "G3", "G4", "G5", "G6", "B3"),
+		Explanation: "Every goroutine's loops have an owner-tied exit and helper goroutines never block on a channel whose receiver may have left (G1); Close reaches cancel, Replicator.Stop, cache close, every emitter it created and the legacy subscribers, every bus subscription is closed, instance Close reaches its parts (G3); no call made under a lock re-acquires the same lock class (G4); Close starts with the closed test, Drop closes first and removes only the path derived from the database's own address (G5); condition variables are signalled with their lock held (G6); shared table entries are not bound to one caller's context (B3).",
+		NotDecided:  "prompt return of every post-close operation (depends on leveldb and the bus)."},
+	"C19": {ID: "C19", Rules: rr("R1", "R2"),
+		Explanation: "The status is written only by the recalculation helpers and reset only by Close (R1); the helpers are executed abstractly on every weak ordering of (arg, logLen, oldMax, progress, progress+1): neither value decreases and progress <= maximum is re-established (R2).",
+		NotDecided:  "progress = maximum at rest; relation to Lamport times."},
+	"C20": {ID: "C20", Rules: []ruleRef{{Rule: "X1"}, {Rule: "X2"}, only("X3", "directchannel"), {Rule: "N2"}, only("N1", "directchannel")}, Controls: []string{"N2"},
+		Explanation: "All three subscription read loops deliver only on the sender ≠ self outcome (X1); the pairwise channel name is the join of the sorted pair {local, remote} (X2); frame writer/reader use matching varint codecs, the reader's bound check precedes allocation, the delivered buffer is the fully read one and is attributed to the stream's remote peer (X3, N1, N2).",
+		NotDecided:  "exactly-once of the polling membership diff; byte-for-byte delivery."},
+}
+
+func init() {
+	for _, s := range propSpecs {
+		s.Assumptions = commonAssumptions
+	}
 }
